@@ -60,8 +60,17 @@ func (parser *Parser) nextLineBytes() ([]byte, error) {
 		return nil, err
 	}
 
-	// Skips a next line field.
-	parser.reader.Read(readByte)
+	// Checks a next line field.
+	n, err = parser.reader.Read(readByte)
+	if err != nil {
+		if errors.Is(err, io.EOF) {
+			return nil, io.ErrUnexpectedEOF
+		}
+		return nil, err
+	}
+	if n != 1 || readByte[0] != lf {
+		return nil, fmt.Errorf(errorInvalidMessage, readBytes.Bytes())
+	}
 
 	// Returns an empty byte array instead of nil
 	lenBytes := readBytes.Bytes()
